@@ -1,6 +1,13 @@
 (* The ECMAScript 2022 Pattern grammar (ECMA-262 13th edition, §22.2.1 "Patterns", with the Annex B.1.4 production
-   variants behind the same [U] switch the standard uses), as an inductive predicate over lists of units
-   (code points with u, UTF-16 code units without).  Written from the standard, not from validator.rs.
+   variants behind the same [U] switch the standard uses) and its early errors (§22.2.1.1, B.1.4.1), as an inductive
+   predicate over lists of units (code points with u, UTF-16 code units without).  Written from the standard, not
+   from validator.rs.
+
+   Shape of the predicates: `X u w r` = "the units w are an X, at a place of the pattern where the units r follow"
+   (r runs to the end of the whole pattern).  The follow context is what the grammar notation's look-ahead
+   restrictions and Annex B's ordered alternatives ("each alternative is considered only if previous production
+   alternatives do not match") speak about; only the constructors that have such a restriction constrain r.
+   `Pattern u s` = `Disjunction u s []` = s is a Pattern[U] to which no early error applies.
 
    FRAGMENT covered so far (everything else of §22.2.1 is absent from the predicate, see FragmentEquiv.v):
      Pattern[U]      :: Disjunction[?U]
@@ -13,10 +20,17 @@
         (the escapes are written with a backslash)
      QuantifiableAssertion :: `(?=` Disjunction[~U] `)` | `(?!` Disjunction[~U] `)`
      Quantifier      :: QuantifierPrefix  |  QuantifierPrefix `?`
-     QuantifierPrefix:: `*` | `+` | `?`
+     QuantifierPrefix:: `*` | `+` | `?` | `{` DecimalDigits `}` | `{` DecimalDigits `,}` | `{` DecimalDigits `,` DecimalDigits `}`
+        early error:    `{` DecimalDigits `,` DecimalDigits `}` with MV of the first DecimalDigits larger than the MV of the second
+     DecimalDigits   :: DecimalDigit | DecimalDigits DecimalDigit          (with its MV, an unbounded natural number)
      Atom[U]         :: PatternCharacter | `.` | `\` AtomEscape[?U] | `(` Disjunction[?U] `)` | `(?:` Disjunction[?U] `)`
                         (GroupSpecifier is [empty]: no named groups in the fragment)
-     ExtendedAtom    :: `.` | `\` AtomEscape[~U] | `(` Disjunction[~U] `)` | `(?:` Disjunction[~U] `)` | ExtendedPatternCharacter
+     ExtendedAtom    :: `.` | `\` AtomEscape[~U] | `(` Disjunction[~U] `)` | `(?:` Disjunction[~U] `)`
+                      | InvalidBracedQuantifier | ExtendedPatternCharacter
+     InvalidBracedQuantifier :: `{` DecimalDigits `}` | `{` DecimalDigits `,}` | `{` DecimalDigits `,` DecimalDigits `}`
+        early error (B.1.4.1): any source text matched by ExtendedAtom :: InvalidBracedQuantifier.  Hence the production has
+        no constructor; what it contributes is the ordered-choice side condition of At_char: without u a unit is an
+        ExtendedPatternCharacter only where InvalidBracedQuantifier does not match (it can only match at a `{`).
      AtomEscape[U]   :: CharacterClassEscape | CharacterEscape[?U]          (no DecimalEscape, no `k` GroupName)
      CharacterClassEscape :: one of d D s S w W                             (no property escapes)
      CharacterEscape[U]   :: ControlEscape | IdentityEscape[?U]             (no c-letter, 0, hex, unicode, legacy octal)
@@ -24,13 +38,12 @@
      IdentityEscape[U] :: [+U] SyntaxCharacter | [+U] `/`
         Annex B [~U]:   SourceCharacterIdentityEscape[~N] :: SourceCharacter but not `c`
                         (without u the fragment has no group names, so the [N] parameter is absent)
-     Annex B resolves its ambiguities by the order of the alternatives ("each alternative is considered only if
-     previous production alternatives do not match"): backslash-b and backslash-B are matched by Assertion, which
-     precedes ExtendedAtom in Term, so they are never atoms (side condition of At_escape).
+     Annex B resolves its ambiguities by the order of the alternatives: backslash-b and backslash-B are matched by
+     Assertion, which precedes ExtendedAtom in Term, so they are never atoms (side condition of At_escape).
      SyntaxCharacter :: one of ^ $ \ . * + ? ( ) [ ] { } |
      PatternCharacter:: SourceCharacter but not SyntaxCharacter
      ExtendedPatternCharacter :: SourceCharacter but not one of ^ $ \ . * + ? ( ) [ |
-   No early errors apply to this fragment. *)
+   Early errors of the fragment: the two above (bounds out of order; InvalidBracedQuantifier). *)
 From Coq Require Import List NArith Bool.
 Import ListNotations.
 Open Scope N_scope.
@@ -40,6 +53,7 @@ Definition g_star := 42. Definition g_plus := 43. Definition g_question := 63. D
 Definition g_rparen := 41. Definition g_lbracket := 91. Definition g_rbracket := 93. Definition g_lbrace := 123.
 Definition g_rbrace := 125. Definition g_bar := 124. Definition g_colon := 58.
 Definition g_equals := 61. Definition g_bang := 33. Definition g_less := 60. Definition g_slash := 47.
+Definition g_comma := 44.
 
 Definition syntax_character (c : N) : bool :=
   existsb (N.eqb c) [g_caret; g_dollar; g_backslash; g_dot; g_star; g_plus; g_question; g_lparen; g_rparen;
@@ -61,44 +75,65 @@ Inductive AtomEscape (u : bool) : list N -> Prop :=
 | AE_control c : control_escape c = true -> AtomEscape u [c]
 | AE_identity c : identity_escape u c = true -> AtomEscape u [c].
 
+(* DecimalDigits with its MV *)
+Definition decimal_digit (c : N) : bool := (48 <=? c) && (c <=? 57).
+Inductive DecimalDigits : list N -> N -> Prop :=
+| DD_digit d : decimal_digit d = true -> DecimalDigits [d] (d - 48)
+| DD_more ds v d : DecimalDigits ds v -> decimal_digit d = true -> DecimalDigits (ds ++ [d]) (10 * v + (d - 48)).
+(* the three braced forms (of QuantifierPrefix and of InvalidBracedQuantifier) with the MV of the lower bound and of
+   the upper bound where there is one *)
+Inductive Braced : list N -> N -> option N -> Prop :=
+| Br_exact ds n : DecimalDigits ds n -> Braced (g_lbrace :: ds ++ [g_rbrace]) n (Some n)
+| Br_at_least ds n : DecimalDigits ds n -> Braced (g_lbrace :: ds ++ [g_comma; g_rbrace]) n None
+| Br_range ds n es m : DecimalDigits ds n -> DecimalDigits es m ->
+    Braced (g_lbrace :: ds ++ g_comma :: es ++ [g_rbrace]) n (Some m).
+Definition InvalidBracedQuantifier (q : list N) : Prop := exists n om, Braced q n om.
+
 Inductive QuantifierPrefix : list N -> Prop :=
 | QP_star : QuantifierPrefix [g_star]
 | QP_plus : QuantifierPrefix [g_plus]
-| QP_opt : QuantifierPrefix [g_question].
+| QP_opt : QuantifierPrefix [g_question]
+| QP_braced q n om : Braced q n om -> (forall m, om = Some m -> n <= m) (* early error otherwise *) -> QuantifierPrefix q.
 Inductive Quantifier : list N -> Prop :=
 | Q_greedy p : QuantifierPrefix p -> Quantifier p
 | Q_lazy p : QuantifierPrefix p -> Quantifier (p ++ [g_question]).
 
-Inductive Disjunction (u : bool) : list N -> Prop :=
-| D_alt a : Alternative u a -> Disjunction u a
-| D_bar a d : Alternative u a -> Disjunction u d -> Disjunction u (a ++ g_bar :: d)
-with Alternative (u : bool) : list N -> Prop :=
-| A_empty : Alternative u []
-| A_term a t : Alternative u a -> Term u t -> Alternative u (a ++ t)
-with Term (u : bool) : list N -> Prop :=
-| T_assertion a : Assertion u a -> Term u a
-| T_qassertion_quant a q : u = false -> QuantifiableAssertion u a -> Quantifier q -> Term u (a ++ q)   (* Annex B *)
-| T_atom a : Atom u a -> Term u a
-| T_atom_quant a q : Atom u a -> Quantifier q -> Term u (a ++ q)
-with Assertion (u : bool) : list N -> Prop :=
-| As_caret : Assertion u [g_caret]
-| As_dollar : Assertion u [g_dollar]
-| As_word_boundary : Assertion u [g_backslash; 98]
-| As_not_word_boundary : Assertion u [g_backslash; 66]
-| As_lookahead a : QuantifiableAssertion u a -> Assertion u a
-| As_lookbehind d : Disjunction u d -> Assertion u (g_lparen :: g_question :: g_less :: g_equals :: d ++ [g_rparen])
-| As_neg_lookbehind d : Disjunction u d -> Assertion u (g_lparen :: g_question :: g_less :: g_bang :: d ++ [g_rparen])
-with QuantifiableAssertion (u : bool) : list N -> Prop :=   (* the two look-aheads *)
-| QA_lookahead d : Disjunction u d -> QuantifiableAssertion u (g_lparen :: g_question :: g_equals :: d ++ [g_rparen])
-| QA_neg_lookahead d : Disjunction u d -> QuantifiableAssertion u (g_lparen :: g_question :: g_bang :: d ++ [g_rparen])
-with Atom (u : bool) : list N -> Prop :=
-| At_char c : pattern_char u c = true -> Atom u [c]
-| At_dot : Atom u [g_dot]
-| At_escape c : AtomEscape u [c] -> assertion_escape c = false -> Atom u [g_backslash; c]
-| At_group d : Disjunction u d -> Atom u (g_lparen :: d ++ [g_rparen])
-| At_noncapturing d : Disjunction u d -> Atom u (g_lparen :: g_question :: g_colon :: d ++ [g_rparen]).
+Inductive Disjunction (u : bool) : list N -> list N -> Prop :=
+| D_alt a r : Alternative u a r -> Disjunction u a r
+| D_bar a d r : Alternative u a (g_bar :: d ++ r) -> Disjunction u d r -> Disjunction u (a ++ g_bar :: d) r
+with Alternative (u : bool) : list N -> list N -> Prop :=
+| A_empty r : Alternative u [] r
+| A_term a t r : Alternative u a (t ++ r) -> Term u t r -> Alternative u (a ++ t) r
+with Term (u : bool) : list N -> list N -> Prop :=
+| T_assertion a r : Assertion u a r -> Term u a r
+| T_qassertion_quant a q r : u = false -> QuantifiableAssertion u a (q ++ r) -> Quantifier q -> Term u (a ++ q) r   (* Annex B *)
+| T_atom a r : Atom u a r -> Term u a r
+| T_atom_quant a q r : Atom u a (q ++ r) -> Quantifier q -> Term u (a ++ q) r
+with Assertion (u : bool) : list N -> list N -> Prop :=
+| As_caret r : Assertion u [g_caret] r
+| As_dollar r : Assertion u [g_dollar] r
+| As_word_boundary r : Assertion u [g_backslash; 98] r
+| As_not_word_boundary r : Assertion u [g_backslash; 66] r
+| As_lookahead a r : QuantifiableAssertion u a r -> Assertion u a r
+| As_lookbehind d r : Disjunction u d (g_rparen :: r) ->
+    Assertion u (g_lparen :: g_question :: g_less :: g_equals :: d ++ [g_rparen]) r
+| As_neg_lookbehind d r : Disjunction u d (g_rparen :: r) ->
+    Assertion u (g_lparen :: g_question :: g_less :: g_bang :: d ++ [g_rparen]) r
+with QuantifiableAssertion (u : bool) : list N -> list N -> Prop :=   (* the two look-aheads *)
+| QA_lookahead d r : Disjunction u d (g_rparen :: r) ->
+    QuantifiableAssertion u (g_lparen :: g_question :: g_equals :: d ++ [g_rparen]) r
+| QA_neg_lookahead d r : Disjunction u d (g_rparen :: r) ->
+    QuantifiableAssertion u (g_lparen :: g_question :: g_bang :: d ++ [g_rparen]) r
+with Atom (u : bool) : list N -> list N -> Prop :=
+| At_char c r : pattern_char u c = true ->
+    (* Annex B: ExtendedPatternCharacter is tried after InvalidBracedQuantifier *)
+    (u = false -> forall q r', InvalidBracedQuantifier q -> c :: r <> q ++ r') -> Atom u [c] r
+| At_dot r : Atom u [g_dot] r
+| At_escape c r : AtomEscape u [c] -> assertion_escape c = false -> Atom u [g_backslash; c] r
+| At_group d r : Disjunction u d (g_rparen :: r) -> Atom u (g_lparen :: d ++ [g_rparen]) r
+| At_noncapturing d r : Disjunction u d (g_rparen :: r) -> Atom u (g_lparen :: g_question :: g_colon :: d ++ [g_rparen]) r.
 
-Definition Pattern (u : bool) (s : list N) : Prop := Disjunction u s.
+Definition Pattern (u : bool) (s : list N) : Prop := Disjunction u s [].
 
 Scheme Disjunction_mind := Minimality for Disjunction Sort Prop
   with Alternative_mind := Minimality for Alternative Sort Prop
